@@ -47,7 +47,7 @@ def rand_prog(rnd):
         else:
             act = rnd.choice([{"t": "count"}, {"t": "setttl", "k": rnd.choice([9, 64, 255, 0])}, {"t": "local"}])
             pat = rand_pat(rnd) if rnd.random() < 0.8 else {"t": "none"}
-        fs.append({"pat": pat, "act": act})
+        fs.append({"pat": pat, "act": act, "style": rnd.randrange(4)})
     has_end = rnd.random() < 0.6
     if not fs and not has_end:
         has_end = True          # without any filter the program is an ordinary script, not filter mode
@@ -78,12 +78,20 @@ def prog_src(prog, skip=False):
         if a == "none":
             src += "@ %s\n" % pat
         elif a == "count":
-            # with -s stdout carries only what the program prints: make it print something
-            src += "@ %s { cnt = cnt + 1; %s%s }\n" % (pat, probe, ' println("T");' if skip else "")
+            # with -s stdout carries only what the program prints: make it print something.
+            # The same action is written in several equivalent ways: with locals (more of them than the program has
+            # globals), in nested blocks, through a function - what it does to cnt is the same
+            bump = ["cnt = cnt + 1;",
+                    "let a = PL; let b = WL; let c = a + b; cnt = cnt + 1 + c - a - b;",
+                    "let a = NP; { let b = a + 1; { let c = b + 1; cnt = cnt + c - a - 1; } }",
+                    "let a = TSS; let b = TSU; let g = fn(x, y) { let z = x + y; z - y }; cnt = g(cnt + 1, a + b);"][f.get("style", 0)]
+            src += "@ %s { %s %s%s }\n" % (pat, bump, probe, ' println("T");' if skip else "")
         elif a == "setttl":
             src += "@ %s { ($2).ttl = %d; %s }\n" % (pat, f["act"]["k"], probe)
         else:
-            src += '@ %s { let loc = NP * 2; eprintln("A {} {} {} {} {} {} {} {}", %d, NP, PL, WL, TSS, TSU, cnt, loc); }\n' % (pat, j)
+            extra = ["", "let l2 = PL; let l3 = WL; let l4 = l2 + l3; "][f.get("style", 0) % 2]
+            locx = ["loc", "loc + l4 - l2 - l3"][f.get("style", 0) % 2]
+            src += '@ %s { let loc = NP * 2; %seprintln("A {} {} {} {} {} {} {} {}", %d, NP, PL, WL, TSS, TSU, cnt, %s); }\n' % (pat, extra, j, locx)
     if prog["hasEnd"]:
         src += '@ end { eprintln("END {} {}", NP, cnt); }\n'
     return src
@@ -93,7 +101,9 @@ def rand_stream(rnd):
     n = rnd.choice([0, 0, 1, 2, 3, 5, 8, rnd.randint(0, 40)])
     pk = []
     for i in range(n):
-        payload = bytes(rnd.randrange(256) for _ in range(rnd.choice([0, 6, 16, 26])))
+        # mostly small frames; some large ones full of line-feed bytes (standard output is a line-buffered stream)
+        psize = rnd.choice([0, 6, 16, 26, 0, 6, 16, 26, 1100, 1460])
+        payload = bytes(rnd.choice([10, 10, rnd.randrange(256)]) if psize > 1000 else rnd.randrange(256) for _ in range(psize))
         ip = pcapfmt.ipv4(payload_len=len(payload), ttl=rnd.choice([9, 64, 100, 255, 1]), proto=rnd.choice([6, 17, 1]))
         et = 0x0800     # FilterMode.tla reads $2 as IPv4
         raw = pcapfmt.eth(etype=et) + ip + payload
@@ -101,9 +111,10 @@ def rand_stream(rnd):
                           rnd.choice([len(raw), len(raw) + rnd.randrange(1500)]))
         pk.append({"hdr": hdr, "raw": raw})
     # a capture made with a small snaplen holds packets of exactly that captured length
-    snap = rnd.choice([65535, 262144, 1500, 96])
+    longest = max([len(p["raw"]) for p in pk] or [0])
+    snap = rnd.choice([x for x in (65535, 262144, 1500, 96) if x >= longest])
     if pk and rnd.random() < 0.35:
-        snap = max(len(p["raw"]) for p in pk)
+        snap = longest
     gh = pcapfmt.global_header(magic=rnd.choice([pcapfmt.MAGIC_US, pcapfmt.MAGIC_NS]), vmaj=rnd.choice([2, 2, 1]), vmin=rnd.choice([4, 4, 0]),
                                thiszone=rnd.choice([0, 0, -3600]), sigfigs=rnd.choice([0, 6]), snaplen=snap,
                                linktype=rnd.choice([1, 1, 1, 101]))
